@@ -292,14 +292,20 @@ func init() {
 			if !strings.HasPrefix(impl.pkg, "mempool") {
 				continue // consensus.emptyMempool is the no-op stub used during WAL replay
 			}
+			// the update lock of an implementation is the mutex its Lock() takes first, exclusively (an
+			// implementation may nest a second one inside it)
+			upd := mempoolUpdateLock(w, impl.pkg, impl.name)
 			if lf := w.Fn(impl.pkg, impl.name+".Lock"); lf != nil {
-				locks := 0
-				for _, in := range callInstrs(lf) {
-					if d, ok := describeCallee(in); ok && d.Name == "Lock" && strings.HasSuffix(d.Recv, "Mutex") {
-						locks++
+				c.Check(upd != "", impl.pkg+"."+impl.name+".Lock takes the update mutex exclusively", w.pos(lf.Pos()), "exclusive Lock()", "Lock() does not take an exclusive mutex")
+			}
+			if uf := w.Fn(impl.pkg, impl.name+".Unlock"); uf != nil && upd != "" {
+				rel := false
+				for _, in := range callInstrs(uf) {
+					if d, ok := describeCallee(in); ok && d.Name == "Unlock" && strings.HasSuffix(d.Recv, "Mutex") && mutexField(w, in) == upd {
+						rel = true
 					}
 				}
-				c.Check(locks == 1, impl.pkg+"."+impl.name+".Lock takes the update mutex exclusively", w.pos(lf.Pos()), "exclusive Lock()", "Lock() does not take an exclusive mutex")
+				c.Check(rel, impl.pkg+"."+impl.name+".Unlock releases the update mutex", w.pos(uf.Pos()), "Unlock of "+upd, "Unlock() does not release the mutex Lock() took")
 			}
 			if ff := w.Fn(impl.pkg, impl.name+".FlushAppConn"); ff != nil {
 				c.Check(w.alwaysCalls(ff, 0, "proxy#AppConnMempool.FlushSync"), impl.pkg+"."+impl.name+".FlushAppConn blocks on FlushSync", w.pos(ff.Pos()), "FlushSync on every path", "FlushAppConn does not wait for the mempool connection to drain (no FlushSync on every path)")
@@ -311,9 +317,10 @@ func init() {
 				}
 				c.Check(rOK, impl.pkg+"."+impl.name+".FlushAppConn returns the flush error", w.pos(ff.Pos()), "error propagated", "FlushSync's error is not what FlushAppConn returns")
 				// the caller holds the update lock across flush, commit and update: the flush must not open it
+				// (a mutex nested inside the update lock may be opened for the callbacks of the flush)
 				unl := 0
 				for _, in := range callInstrs(ff) {
-					if d, ok := describeCallee(in); ok && (d.Name == "Unlock" || d.Name == "RUnlock") && strings.HasSuffix(d.Recv, "Mutex") {
+					if d, ok := describeCallee(in); ok && (d.Name == "Unlock" || d.Name == "RUnlock") && strings.HasSuffix(d.Recv, "Mutex") && (upd == "" || mutexField(w, in) == upd) {
 						unl++
 					}
 				}
@@ -331,7 +338,13 @@ func init() {
 				continue // connection wrappers and the abci-cli tool (its own client, not a node's mempool connection)
 			}
 			key := k.key(outermost(s.Fn), "CheckTx on mempool connection")
-			ok, why := w.holdsLock(s.Fn, s.Instr, regexp.MustCompile(`(\.updateMtx|\.mtx|!)$`), 3)
+			// inside a mempool implementation the lock must be that implementation's update lock (the one its
+			// Lock() takes first and its FlushAppConn keeps closed); elsewhere the interface's Lock()
+			lockRe := regexp.MustCompile(`(\.updateMtx|\.mtx|!)$`)
+			if u := mempoolUpdateLockOfPkg(w, relPkg(s.Fn)); u != "" {
+				lockRe = regexp.MustCompile(`(\.` + regexp.QuoteMeta(u) + `|!)$`)
+			}
+			ok, why := w.holdsLock(s.Fn, s.Instr, lockRe, 3)
 			c.Check(ok, key, w.ipos(s.Instr), "update lock held: "+why, "CheckTx is issued on the mempool connection without the mempool update lock, so it can start or be in flight between the commit request and the end of the mempool update/recheck: "+why)
 		}
 	})
@@ -472,4 +485,50 @@ func sortImpl(s []implRef) {
 			s[j], s[j-1] = s[j-1], s[j]
 		}
 	}
+}
+
+// mutexField: the field name of the mutex a Lock/Unlock call is made on (`txmp.updateMtx.Lock()` → updateMtx).
+func mutexField(w *World, call ssa.CallInstruction) string {
+	r := callRecv(call)
+	if r == nil {
+		return ""
+	}
+	e := strings.TrimPrefix(w.expr(r), "&")
+	// libs/sync's mutex types embed the standard ones: the promoted receiver is field.RWMutex
+	e = strings.TrimSuffix(strings.TrimSuffix(e, ".RWMutex"), ".Mutex")
+	if i := strings.LastIndex(e, "."); i >= 0 {
+		return e[i+1:]
+	}
+	return e
+}
+
+// mempoolUpdateLock: the mutex field that typ.Lock() in pkg takes first, exclusively ("" if none).
+func mempoolUpdateLock(w *World, pkg, typ string) string {
+	lf := w.Fn(pkg, typ+".Lock")
+	if lf == nil || lf.Blocks == nil {
+		return ""
+	}
+	for _, in := range rawCallInstrs(lf) {
+		if d, ok := describeCallee(in); ok && strings.HasSuffix(d.Recv, "Mutex") {
+			if d.Name == "Lock" {
+				return mutexField(w, in)
+			}
+			return ""
+		}
+	}
+	return ""
+}
+
+// mempoolUpdateLockOfPkg: the update lock of the Mempool implementation that lives in package rel.
+func mempoolUpdateLockOfPkg(w *World, rel string) string {
+	if !strings.HasPrefix(rel, "mempool/") {
+		return ""
+	}
+	mi, _ := w.NamedType("mempool", "Mempool").Underlying().(*types.Interface)
+	for _, impl := range w.implementers(mi) {
+		if impl.pkg == rel {
+			return mempoolUpdateLock(w, impl.pkg, impl.name)
+		}
+	}
+	return ""
 }
